@@ -55,6 +55,8 @@ struct Running {
     done: std::sync::Arc<std::sync::atomic::AtomicBool>,
 }
 
+static MAX_BACKOFF_MS: std::sync::atomic::AtomicU64 = std::sync::atomic::AtomicU64::new(8);
+
 async fn start(c: &CaseCfg, maxconn: usize, dir: &PathBuf) -> Result<Running, String> {
     let kv = make_config(c, dir).open().map_err(|e| e.to_string())?;
     let handle = kv.get_handle();
@@ -65,7 +67,7 @@ async fn start(c: &CaseCfg, maxconn: usize, dir: &PathBuf) -> Result<Running, St
         conf.port = port;
         conf.max_connections = maxconn;
         conf.min_backoff_ms = 1;
-        conf.max_backoff_ms = 8;
+        conf.max_backoff_ms = MAX_BACKOFF_MS.load(std::sync::atomic::Ordering::SeqCst);
         let (tx, rx) = oneshot::channel::<()>();
         match bitcask::net::Server::new(handle.clone(), async { let _ = rx.await; }, conf).await {
             Ok(server) => {
@@ -126,6 +128,7 @@ async fn run_case(c: &CaseCfg, maxconn: usize, ops: &[String], out: &mut dyn Wri
         }
     };
     let mut conns: HashMap<String, TcpStream> = HashMap::new();
+    let mut socks: HashMap<String, tokio::net::TcpSocket> = HashMap::new();
     for line in ops {
         let mut it = line.split_whitespace();
         let cmd = it.next().unwrap_or("");
@@ -315,6 +318,71 @@ async fn run_case(c: &CaseCfg, maxconn: usize, ops: &[String], out: &mut dyn Wri
                         }
                     }
                 })));
+                "ok".into()
+            }
+            "presock" => {
+                // allocate the client's socket now (it keeps its descriptor), connect later with connsock
+                let id = it.next().unwrap().to_string();
+                match tokio::net::TcpSocket::new_v4() {
+                    Ok(sk) => {
+                        socks.insert(id, sk);
+                        "ok".into()
+                    }
+                    Err(e) => format!("err:{}", e.kind()),
+                }
+            }
+            "connsock" => {
+                let id = it.next().unwrap().to_string();
+                match socks.remove(&id) {
+                    Some(sk) => match timeout(Duration::from_millis(2000), sk.connect(std::net::SocketAddr::from(([127, 0, 0, 1], srv.port)))).await {
+                        Ok(Ok(st)) => {
+                            let _ = st.set_nodelay(true);
+                            conns.insert(id, st);
+                            "ok".into()
+                        }
+                        Ok(Err(e)) => format!("err:{}", e.kind()),
+                        Err(_) => "timeout".into(),
+                    },
+                    None => "nosock".into(),
+                }
+            }
+            "panicany" => {
+                // the nth time ANY thread reaches <point> it panics (a panic inside the storage operation of a command)
+                let point = it.next().unwrap().to_string();
+                let nth: usize = it.next().map(|x| x.parse().unwrap()).unwrap_or(1);
+                let every = nth == 0;
+                let seen = std::sync::Arc::new(std::sync::atomic::AtomicUsize::new(0));
+                bitcask::verif::set_point_callback(Some(std::sync::Arc::new(move |name: &'static str| {
+                    if name == point {
+                        let k = seen.fetch_add(1, std::sync::atomic::Ordering::SeqCst) + 1;
+                        if every || k == nth {
+                            panic!("injected panic at {}", name);
+                        }
+                    }
+                })));
+                "ok".into()
+            }
+            "nopoints" => {
+                bitcask::verif::set_point_callback(None);
+                "ok".into()
+            }
+            "fdexhaust" => {
+                // use up every file descriptor of the process for <ms> milliseconds, in the background (accept() then fails with EMFILE)
+                let ms: u64 = it.next().unwrap().parse().unwrap();
+                std::thread::spawn(move || {
+                    let mut held = Vec::new();
+                    loop {
+                        match std::fs::File::open("/dev/null") {
+                            Ok(f) => held.push(f),
+                            Err(_) => break,
+                        }
+                        if held.len() > 1_100_000 {
+                            break;
+                        }
+                    }
+                    std::thread::sleep(Duration::from_millis(ms));
+                    drop(held);
+                });
                 "ok".into()
             }
             "flood" => {
@@ -518,11 +586,15 @@ pub fn main(_args: &[String]) -> i32 {
         if line.starts_with("CASE") {
             // maxconn is ours, the rest is the store configuration
             let mut maxconn = 128usize;
+            MAX_BACKOFF_MS.store(8, std::sync::atomic::Ordering::SeqCst);
             let filtered: Vec<&str> = line
                 .split_whitespace()
                 .filter(|kv| {
                     if let Some(v) = kv.strip_prefix("maxconn=") {
                         maxconn = v.parse().unwrap();
+                        false
+                    } else if let Some(v) = kv.strip_prefix("backoffmax=") {
+                        MAX_BACKOFF_MS.store(v.parse().unwrap(), std::sync::atomic::Ordering::SeqCst);
                         false
                     } else {
                         true
